@@ -5,9 +5,13 @@ from ..core import bfs
 FEE = ('pct', '0.001', '0')
 INIT = (('acct_sub', '30000'), ('create', '1'), ('create', '2'),
         ('pf_sub', '1', '10000'), ('pf_sub', '2', '10000'))
+# the same books with the portfolios created in the other order (ids do not sort the way they were created)
+INIT_REV = (('acct_sub', '30000'), ('create', '2'), ('create', '1'), ('pf_sub', '1', '10000'), ('pf_sub', '2', '10000'),
+            ('submit', '1', 'A', 5), ('submit', '2', 'Bq', -3), ('tick', 2))
 INITIALS = [
     INIT,
     INIT + (('submit', '1', 'A', 5), ('submit', '2', 'Bq', -3), ('tick', 2)),   # long 5 A / short 3 B
+    INIT_REV,
 ]
 
 
@@ -51,7 +55,7 @@ def run(tier, res, is_known):
     ]
     for i, init in enumerate(INITIALS):
         spec = bm.BrokerSpec('C02', FEE, [init], make_alphabet(tier))
-        bfs(spec, depth, res, is_known, label='init=%d' % i)
+        bfs(spec, depth if i < 2 else depth - 1, res, is_known, label='init=%d' % i)
         if any(not is_known(v) for v in res.violations):
             return
 
